@@ -37,11 +37,37 @@ FPHist(k) ==
 \* both sides of a merge create the same lines independently; the second parent is the younger side
 HBoth  == [par |-> << <<>>, <<1>>, <<2>>, <<1>>, <<3, 4>> >>, tm |-> <<1, 2, 3, 4, 5>>,
            ver |-> << <<5>>, <<1, 2, 5>>, <<1, 2, 3, 5>>, <<1, 2, 4, 5>>, <<1, 2, 3, 4, 5>> >>]
+\* DIAMOND histories (first-parent-determinate by construction): a file of L = 6..8 positions; position i holds one
+\* of three variants of its line, symbol 3(i-1)+v+1 for v = 0 (base text), 1, 2 - so every version is increasing.
+\* A commit with one parent keeps the parent's variant of a position or rewrites it to variant 1 or 2; a merge takes,
+\* per position, the first parent's variant, the second parent's, or RESTORES THE BASE TEXT (variant 0): the common
+\* ancestor is then reached through both parents with different, overlapping sets of needed lines.
+\* key <<shape+len, tm, d2, d3, d4, d5>>: one base-4 digit per position and commit (4^8 < 2^20).
+DShapes == << << <<>>, <<1>>, <<1>>, <<2, 3>>, <<4>> >>,       \* B; P1; P2; M = (P1, P2); child of M
+              << <<>>, <<1>>, <<1>>, <<3, 2>>, <<4>> >>,       \* M = (P2, P1)
+              << <<>>, <<1>>, <<2>>, <<1>>, <<3, 4>> >>,       \* B; A1; P1 = child of A1; P2; M = (P1, P2)
+              << <<>>, <<1>>, <<2>>, <<1>>, <<4, 3>> >>,       \* M = (P2, P1)
+              << <<>>, <<1>>, <<1>>, <<2, 3>>, <<4, 1>> >> >>  \* a second merge with the base itself
+DiamondHist(k) ==
+  LET par == DShapes[(k[1] % 5) + 1]
+      L == 6 + ((k[1] \div 5) % 3)
+      dg(c, i) == Dgt(k[c + 1], 4, i)
+      v[c \in 1..5] ==        \* v[c][i]: the variant of position i in commit c
+        IF par[c] = <<>> THEN [i \in 1..L |-> 0]
+        ELSE IF Len(par[c]) = 1
+          THEN [i \in 1..L |-> IF dg(c, i) <= 1 THEN v[par[c][1]][i] ELSE dg(c, i) - 1]
+          ELSE [i \in 1..L |-> IF dg(c, i) = 0 THEN 0 ELSE IF dg(c, i) = 2 THEN v[par[c][2]][i] ELSE v[par[c][1]][i]]
+  IN [par |-> par, tm |-> TmOf(k[2]), ver |-> [c \in 1..5 |-> [i \in 1..L |-> 3 * (i - 1) + v[c][i] + 1]]]
+\* the diamond of the seeded demo: P1 rewrites positions 2 and 6, P2 positions 4 and 7; the merge keeps P1's 6 and
+\* P2's 4 and restores 2 and 7 to the base text
+HDiamond == [par |-> << <<>>, <<1>>, <<1>>, <<2, 3>> >>, tm |-> <<1, 2, 3, 4>>,
+             ver |-> << <<1, 4, 7, 10, 13, 16, 19, 22>>, <<1, 5, 7, 10, 13, 17, 19, 22>>, <<1, 4, 7, 12, 13, 16, 21, 22>>,
+                        <<1, 4, 7, 12, 13, 17, 19, 22>> >>]
 \* hand-made: a move, a duplicate, a revert, an unchanged merge, a merge that keeps both sides
 HMove  == [par |-> << <<>>, <<1>>, <<2>> >>, tm |-> <<1, 2, 3>>, ver |-> << <<1, 2, 3>>, <<2, 3, 1>>, <<2, 3, 1, 1>> >>]
 HRevert == [par |-> << <<>>, <<1>>, <<2>>, <<3>> >>, tm |-> <<1, 2, 3, 4>>, ver |-> << <<1, 2>>, <<1>>, <<1, 2>>, <<1, 2>> >>]
 HMerge == [par |-> << <<>>, <<1>>, <<1>>, <<2, 3>>, <<4>> >>, tm |-> <<1, 3, 2, 4, 5>>,
            ver |-> << <<3, 6>>, <<2, 3, 6>>, <<3, 6, 8>>, <<2, 3, 4, 6, 8>>, <<2, 3, 4, 8, 10>> >>]
 HSame  == [par |-> << <<>>, <<1>>, <<1>>, <<3, 2>> >>, tm |-> <<1, 2, 2, 3>>, ver |-> << <<1>>, <<1, 2>>, <<1, 3>>, <<1, 2>> >>]
-MCFixedH == <<HMove, HRevert, HMerge, HSame, HBoth>>
+MCFixedH == <<HMove, HRevert, HMerge, HSame, HBoth, HDiamond>>
 =============================================================================
